@@ -10,7 +10,7 @@ sequential reference model and against each other.
 from .core import Result, Violation, HarnessError, EventLog, bump, rng_for, sha_bytes, settle
 
 PROP = 'C11'
-TIMEOUT = 300
+TIMEOUT = 900
 BATCHES = {
     'quick': [('P', 4000), ('A', 500), ('B', 500)],
     'thorough': [('P', 200000), ('A', 25000), ('B', 25000)],
